@@ -774,6 +774,9 @@ func main() {
 		runCase(r, 0, c)
 	}
 	n := 4000 * r.Scale
+	if r.Tier == "thorough" {
+		n *= 3 // 240 000 histories
+	}
 	for i := 0; i < n; i++ {
 		rng, sub := r.Rng.Fork()
 		runCase(r, sub, genCase(rng, 40))
